@@ -158,7 +158,7 @@ def check(ctx):
             ok = ok and g1 and g2
         elif not (e[0] == "const" and e[1] == 0):
             ok = False
-    t_edges = gs.guard(ka, lambda c, r, l: l == "true" and c[0] == "field" and c[2] == FLAG)
+    t_edges = gs.frontier(ka, gs.guard(ka, lambda c, r, l: l == "true" and c[0] == "field" and c[2] == FLAG))
     trues = [site.bb for site, e in gs.ret_exprs(ka) if e[0] == "const" and e[1] == 1]
     falses = [site.bb for site, e in gs.ret_exprs(ka) if e[0] == "const" and e[1] == 0]
     conv = bool(t_edges) and all(lib.count_range(ka, [t], ka.return_blocks(), falses) == (0, 0) and lib.count_range(ka, [t], ka.return_blocks(), trues) == (1, 1) for _, t in t_edges)
@@ -359,6 +359,7 @@ def check(ctx):
             # reached after the loop on every path with a non-empty list
             ne = gs.guard(hs, lambda cc, rr, ll: ll == "false" and cc[0] == "call" and re.search(r"Vec::is_empty$", strip_generics(cc[1])) is not None
                                 and gs.has_call(gs.expand(hs, cc[2][0]), r"Iterator::collect$"))
+            ne = gs.frontier(hs, ne)
             got = lib.count_range(hs, gs.edge_targets(ne), hs.return_blocks(), [c.bb]) if ne else None
             ctx.ob("cover", "handle_received_subscriptions: non-empty graft list => one peer_added_to_mesh", got == (1, 1), c.loc(), "on the !topics_joined.is_empty() edge: %s" % (got,))
             if head is not None:
